@@ -17,3 +17,5 @@ def run(prog, rep):
     r_order.run_lookup(prog, rep)
     r_key.run_handles_only(prog, rep)
     r_order.run_name_first(prog, rep)
+    from ..rules import r_bfs as _rb
+    _rb.run_filters(prog, rep)
